@@ -192,6 +192,10 @@ class Interstitial(object):
             u1 = u0 + np.dot(self.crys.invlatt, dx0)  # should correspond to the j0
             super0, super1 = basesupercell.copy(), basesupercell.copy()
             ind0, ind1 = np.dot(super0.invsuper, u0) / super0.size, np.dot(super1.invsuper, u1) / super0.size
+            if super0.index(ind0) == super1.index(ind1):
+                # the jump ends on a periodic image of its starting site: no transition can be built in this cell
+                warnings.warn('Supercell:\n{}\ntoo small: transition {} starts and ends on the same site'.format(super_n, tag),
+                              RuntimeWarning, stacklevel=2)
             # put interstitials at our corresponding sites
             super0[ind0], super1[ind1] = self.chem, self.chem
             superdict['transitions'][tag] = (super0, super1)
